@@ -31,7 +31,7 @@ from ..ref import cpp
 ID = "C18"
 FAULTS = ["quote-missing", "angle-missing", "unreached-missing", "missing-in-shared-header", "missing-in-header-included-twice", "same-missing-twice",
           "unknown-directive-reached", "unknown-directive-unreached", "harmless-directives", "db-missing-file", "unknown-compiler", "unknown-flag",
-          "unknown-directive-in-uncompiled-file", "angle-resolvable-for-one-tu-only", "repeated-db-events"]
+          "unknown-directive-in-uncompiled-file", "angle-resolvable-for-one-tu-only", "repeated-db-events", "computed-angle-missing"]
 
 
 def build(root, faults):
@@ -41,6 +41,8 @@ def build(root, faults):
         main.append('#include "missing_q.h"')
     if "angle-missing" in F:
         main.append("#include <missing_a.h>")
+    if "computed-angle-missing" in F:      # the operand is a macro that expands to the angle form
+        main += ["#define HDR_A <missing_c.h>", "#include HDR_A"]
     if "unreached-missing" in F:
         main += ["#if 0", '#include "never.h"', "#endif"]
     main.append('#include "sub/k.h"')
